@@ -245,6 +245,7 @@ theorem supOnline_phaseInv {s : SState} (hi : PhaseInv s) {sp : Bool} (hph : s.p
   repeat' split
   · apply hi.move hne .dispatching <;> simp [hph, Phase.hasClient]
   · exact failAttempt_phaseInv hi hne _ _
+  · exact failAttempt_phaseInv (s := s.nextID.2) (hi.congr rfl rfl rfl rfl rfl rfl rfl) hne _ _
   · apply hi.move hne (.resubWait s.nextID.1) <;> simp [hph, Phase.hasClient]
   · apply hi.loop hne <;> simp [failAttempt, closeSt_cl, toLoop_phase]
 
@@ -254,6 +255,7 @@ theorem clientCall_phaseInv {s : SState} (hi : PhaseInv s) (hph : s.phase = .dis
   unfold clientCall
   dsimp only
   repeat' split
+  · apply hi.loop hne <;> simp [leaveDispatcher, closeSt_cl, toLoop_phase]
   · apply hi.loop hne <;> simp [leaveDispatcher, closeSt_cl, toLoop_phase]
   · apply hi.congr <;> simp
   · apply hi.congr <;> simp
